@@ -35,6 +35,11 @@ type fieldCovEntry struct {
 	Type   string   `json:"type"`
 	Kind   string   `json:"kind"` // produce | reset
 	Fields []string `json:"fields"`
+	// FromSame: (methods of T only) the fields whose stored value is derived from the SAME field of the
+	// receiver — what a copy is: c.F comes from recv.F
+	FromSame []string `json:"from_same,omitempty"`
+
+	wholeCopy bool
 }
 
 var resetName = regexp.MustCompile(`^(?i:reset|clear|init|cleanup|restart|flush)[A-Z_]?\w*$`)
@@ -86,6 +91,14 @@ func fieldCoverage(p *ir.Program, fn *ssa.Function) *fieldCovEntry {
 		}
 		return types.Identical(t, nt)
 	}
+	// for a method of T that produces a T: which fields come from the receiver's same field
+	recvName := ""
+	same, notSame := map[string]bool{}, map[string]bool{}
+	if kind == "produce" && fn.Signature.Recv() != nil && len(fn.Params) > 0 {
+		if rt, _ := moduleStruct(fn.Signature.Recv().Type()); rt != nil && types.Identical(rt, nt) {
+			recvName = ir.Render(fn.Params[0])
+		}
+	}
 	// the objects whose stores count
 	objs := map[ssa.Value]map[string]bool{}
 	whole := map[ssa.Value]bool{}
@@ -96,7 +109,7 @@ func fieldCoverage(p *ir.Program, fn *ssa.Function) *fieldCovEntry {
 			for _, in := range b.Instrs {
 				if al, ok := in.(*ssa.Alloc); ok {
 					et := al.Type().(*types.Pointer).Elem()
-					if types.Identical(et, nt) {
+					if types.Identical(et, nt) && !isParamSpill(al) {
 						objs[al] = map[string]bool{}
 					}
 				}
@@ -164,6 +177,14 @@ func fieldCoverage(p *ir.Program, fn *ssa.Function) *fieldCovEntry {
 			if o := resolve(a.X, 0); o != nil {
 				if fv := ir.FieldVar(a.X, a.Field); fv != nil {
 					objs[o][fv.Name()] = true
+					if recvName != "" {
+						v := ir.Render(s.Val)
+						if mentionsField(v, recvName, fv.Name()) {
+							same[fv.Name()] = true
+						} else {
+							notSame[fv.Name()] = true
+						}
+					}
 				}
 			}
 		default:
@@ -177,8 +198,10 @@ func fieldCoverage(p *ir.Program, fn *ssa.Function) *fieldCovEntry {
 	})
 	// intersection over the objects that are set at all
 	var common map[string]bool
+	wholeAny := false
 	for o, fs := range objs {
 		if whole[o] {
+			wholeAny = true
 			fs = map[string]bool{}
 			for i := 0; i < st.NumFields(); i++ {
 				fs[st.Field(i).Name()] = true
@@ -208,7 +231,33 @@ func fieldCoverage(p *ir.Program, fn *ssa.Function) *fieldCovEntry {
 		e.Fields = append(e.Fields, f)
 	}
 	sort.Strings(e.Fields)
+	for f := range same {
+		if !notSame[f] && common[f] {
+			e.FromSame = append(e.FromSame, f)
+		}
+	}
+	sort.Strings(e.FromSame)
+	if wholeAny {
+		e.FromSame = nil // a whole-struct copy takes every field from the same field by construction
+		e.wholeCopy = true
+	}
 	return e
+}
+
+// mentionsField: the rendering v contains the selector recv.field (not as a prefix of a longer name).
+func mentionsField(v, recv, field string) bool {
+	sel := recv + "." + field
+	for i := 0; ; {
+		j := strings.Index(v[i:], sel)
+		if j < 0 {
+			return false
+		}
+		end := i + j + len(sel)
+		if end >= len(v) || !(v[end] == '_' || v[end] >= 'a' && v[end] <= 'z' || v[end] >= 'A' && v[end] <= 'Z' || v[end] >= '0' && v[end] <= '9') {
+			return true
+		}
+		i = end
+	}
 }
 
 // GenFieldTable writes fields.json from the current tree (maintenance, like guards.json).
@@ -288,6 +337,19 @@ func fieldCoverageRule(p *ir.Program, r *report.R, files map[string]bool) {
 				missing = append(missing, f)
 			}
 		}
+		if len(want.FromSame) > 0 && !got.wholeCopy {
+			gs := map[string]bool{}
+			for _, f := range got.FromSame {
+				gs[f] = true
+			}
+			var wrong []string
+			for _, f := range want.FromSame {
+				if exists[f] && have[f] && !gs[f] {
+					wrong = append(wrong, f)
+				}
+			}
+			r.Check("K4", "field-coverage/"+name+"/from-the-same-field", p.Pos(fn.Pos()), len(wrong) == 0, fmt.Sprintf("each field the copy took from the receiver's field of the same name (%d) still comes from it; now from elsewhere: %v", len(want.FromSame), wrong))
+		}
 		verb := "sets"
 		if want.Kind == "reset" {
 			verb = "resets"
@@ -302,4 +364,20 @@ func moduleStructOfFn(fn *ssa.Function, kind string) (*types.Named, *types.Struc
 		return moduleStruct(fn.Signature.Recv().Type())
 	}
 	return moduleStruct(fn.Signature.Results().At(0).Type())
+}
+
+// isParamSpill: the slot go/ssa creates for a value parameter/receiver whose address is taken
+// (`store slot = param`): it is the caller's object, not one this function builds.
+func isParamSpill(al *ssa.Alloc) bool {
+	if al.Referrers() == nil {
+		return false
+	}
+	for _, u := range *al.Referrers() {
+		if st, ok := u.(*ssa.Store); ok && st.Addr == al {
+			if _, isP := st.Val.(*ssa.Parameter); isP {
+				return true
+			}
+		}
+	}
+	return false
 }
